@@ -4,6 +4,9 @@
 //                      which hides host-stack exhaustion by recursive Display / == / mark that the 8 MiB main thread
 //                      of the CLI does not survive).  Records as for `run`; a stack overflow kills the process.
 //
+// c02repl <mods|-> <snippet>... : several snippets on ONE Vm (like `repl`), with a host module table (`name=src,name=src`, hex) so that a
+//                      snippet can fail inside an import; per snippet `SNIP <i>` followed by the records of `run`.
+//
 // c02kind <src>...   : each source defines the global `v`; answers, per source, the KIND of the value the
 //                      implementation really built (variant, plus vec/tuple length or closure arity):
 //                      `K <i> <variant> <n>`  |  `K <i> error`.  The plug-in checks the abstract kind tags of
@@ -50,6 +53,27 @@ pub fn dispatch(cmd: &str, args: &[&str], out: &mut Vec<String>) -> bool {
                     }
                     _ => out.push(format!("K {} error", i)),
                 }
+            }
+            true
+        }
+        "c02repl" => {
+            crate::MODULES.with(|m| {
+                let mut m = m.borrow_mut();
+                m.clear();
+                if args[0] != "-" {
+                    for a in args[0].split(',') {
+                        let mut it = a.splitn(2, '=');
+                        let name = crate::unhex_str(it.next().unwrap());
+                        let src = crate::unhex_str(it.next().unwrap_or("-"));
+                        m.insert(name, src);
+                    }
+                }
+            });
+            let mut vm = crate::new_vm();
+            for (i, a) in args[1..].iter().enumerate() {
+                out.push(format!("SNIP {}", i));
+                let r = yarel::vm::interpret(&mut vm, crate::unhex_str(a), None);
+                crate::emit_result(out, &r);
             }
             true
         }
